@@ -12,7 +12,7 @@ Bounded stand-ins (native, ASan/UBSan, real read_image / read_view through std::
 sequences; all RLE4 / RLE8 command sequences of length 2 (3 in the thorough tier) over a command alphabet.
 """
 from vclib.core import X, Check, Unit
-from specs import bmp_rle, targa_rle
+from specs import bmp_rle, targa_rle, bmp_hdr
 
 PNM = 'boost/gil/extension/io/pnm/detail/read.hpp'
 BMP = 'boost/gil/extension/io/bmp/detail/read.hpp'
@@ -129,8 +129,9 @@ UNITS = [
          assumed=['bytes consumed per row by read_palette_image / read_data_15 / read_data: ceil(w/8), ceil(w/2), w, 2w, 2w, 3w, 4w (read off the row decoders; not extracted)']),
     *bmp_rle.UNITS,
     *targa_rle.UNITS,
+    *bmp_hdr.UNITS,
     Unit('decoders_native', 'C11', '/* bounded native stand-in, no extracted body */\n', checks=[Check('crafted_files', 'none', engine='N', native=NATIVE, timeout=1800, flags=['sanitize'])]),
 ]
 META = dict(not_covered=['PNG, JPEG, TIFF (external C libraries, setjmp/longjmp), TARGA header validation and uncompressed / row hand-over loops, the template drivers reader_base::init_image / read_image and the file system',
-                         'BMP header field validation (read_header: negative width, height == INT_MIN), read_palette_image / read_data_15 / read_data row loops, targa RLE: only the bounded native windows exercise them',
+                         'BMP read_palette_image / read_data row loops and the hand-over of rows to the colour-conversion policy: only the bounded native windows exercise them',
                          'time proportional to input beyond the decreases clause of the PNM token loop'])
